@@ -55,6 +55,22 @@ CHECKS["C04"] = dict(level="model_checking", ref="DESIGN.md 5 C04", tech=TECH,
          "demands that exactly the current PINs authenticate and nothing else changed.",
     note="Trusted: TLC, the driver. 'All byte strings' is sampled through named relations with bytes drawn per seed "
          "(3 concretisations quick, 50 thorough). Blob check accepts a wrong PIN with probability ~2^-24 by design.")
+CHECKS["C08"] = dict(level="model_checking", ref="DESIGN.md 5 C08", tech=TECH,
+    text="P11Policy.tla transcribes the attribute rule engine and the fix-up transactions, with ghost fields holding "
+         "what PKCS#11 says the history attributes must be (HistoryTruth), and the action properties OneWay, Frozen, "
+         "NotDestroyable, TrustedOnlyBySO, FailedNoEffect; TLC checks them over every history of <= 3 objects; every "
+         "transition of the bounded graphs becomes one implementation test per key class, after which ALL policy and "
+         "history attributes of all live objects are read back and validated by TLC.",
+    note="Trusted: TLC, the driver. Template sets are those of MC_Policy.tla (single attributes and mixed templates up "
+         "to 3 entries, every order for the listed pairs); key classes AES, generic, DES3, EC private, RSA private.")
+CHECKS["C02"] = dict(level="model_checking", ref="DESIGN.md 5 C02", tech=TECH,
+    text="P11Policy.tla defines when a key is protected (S or not E) and which wraps are allowed; TLC enumerates the flag "
+         "histories over a key, its copies and derived keys; for every transition the implementation is asked for "
+         "every secret attribute alone and mixed, with NULL/small/exact/large buffers, and to wrap under trusted and "
+         "untrusted keys; TLC validates return code, unavailable length, untouched canary buffers, refusal of wraps "
+         "and a leak scan of all returned bytes against the protected values.",
+    note="Trusted: TLC, the driver, the leak scan (8-byte windows of values the driver knows: created, unwrapped, or "
+         "read while legitimately readable). Side channels and C_DigestKey are not covered.")
 NA = {
     "C17": "memory safety and arbitrary byte-level inputs are outside what a TLA+ specification and trace validation can "
            "observe (DESIGN.md 5 C17); crashes met while replaying are reported under the property whose check ran",
